@@ -416,6 +416,29 @@ def r6_continuation_prompt_pairing(ctx):
                        'a continuation prompt is inserted into the stored line but not into the line the labeller tests: the line is shown as `... text` yet labelled as the start of a '
                        'new statement, so the displayed doctest groups (and evaluates) differently when it is parsed again', anchor=f.qualname)
     rep.floor('C18.R6', 'continuation prompts inserted by _complete_source', n, 1)
+    # the branch that accepts an un-prompted body line of an open triple-quoted string is live and does accept: it is reachable when constant
+    # switches are taken into account, and from it the "bad indentation" raise cannot be reached before the line is yielded
+    g = ctx.cfg(f)
+    reach, _ = graph.env_search([g.entry], None, efilter=graph.normal_only)
+    rids = set(id(x) for x in reach)
+    for blk in ast.walk(f.node):
+        for body in (getattr(blk, 'body', None), getattr(blk, 'orelse', None)):
+            if not isinstance(body, list):
+                continue
+            for st in body:
+                if isinstance(st, ast.Assign) and len(st.targets) == 1 and isinstance(st.targets[0], ast.Name) and st.targets[0].id in stored \
+                        and any(isinstance(c, ast.Constant) and isinstance(c.value, str) and c.value.strip() == '...' for c in ast.walk(st.value)):
+                    nodes = [x for x in g.nodes_containing(st) if not x.dup]
+                    live = any(id(x) in rids for x in nodes)
+                    raises = [x for x in g.nodes if x.kind == 'stmt' and isinstance(x.ast, ast.Raise) and not x.dup]
+                    ys = [x for x in g.nodes if x.kind == 'stmt' and not x.dup and any(isinstance(y, ast.Yield) for y in ast.walk(x.ast))]
+                    _, bad = graph.env_search([y for x in nodes for y in x.nsucc()], lambda x: any(x is r_ for r_ in raises), efilter=graph.normal_only, stop=ys) if nodes else (None, None)
+                    ok = live and bad is None
+                    rep.ob('C18.R6', ctx.loc(f, st), 'un-prompted line of an open triple-quoted string is accepted', ok,
+                           'the branch is live and leads to the yield of the line' if ok else
+                           ('the branch that completes a triple-quoted string over un-prompted lines is switched off by a constant: such doctests no longer parse' if not live else
+                            'after the continuation prompt was inserted the line is still rejected as badly indented (the error flag is not cleared): doctests with un-prompted lines '
+                            'inside a triple-quoted string no longer parse'), anchor=f.qualname)
 
 
 # ---------------------------------------------------------------------------
@@ -425,6 +448,8 @@ DE = 'xdoctest/doctest_example.py'
 DP = 'xdoctest/doctest_part.py'
 US = 'xdoctest/utils/util_str.py'
 VARIANTS = [
+    fire('triple-quote-completion-switched-off', 'C18.R6', ('xdoctest/parser.py', "HACK_TRIPLE_QUOTE_FIX = True", "HACK_TRIPLE_QUOTE_FIX = False")),
+    fire('triple-quote-line-still-rejected', 'C18.R6', ('xdoctest/parser.py', "                        suffix = norm_line\n                        error = False\n", "                        suffix = norm_line\n")),
     fire('explicit-numbering-mode-overridden-by-config', 'C18.R5', (DE, "        offset_linenos = self.config.getvalue('offset_linenos', offset_linenos)\n", "        offset_linenos = offset_linenos or self.config['offset_linenos']\n")),
     fire('continuation-prompt-not-seen-by-the-labeller', 'C18.R6', ('xdoctest/parser.py', "                        norm_line = '... ' + norm_line\n", "")),
     fire('want-text-stripped', 'C18.R2b', (DP, "        want_text = self.want if self.want else ''\n", "        want_text = (self.want or '').strip()\n")),
